@@ -28,6 +28,12 @@ Theorem C02_peep_window_no_mark : forall l l', rewrites conv_fold fold1 fold2 l 
 Proof. exact rewrite_window_no_mark. Qed.
 Print Assumptions C02_peep_window_no_mark.
 
+(* the loop terminates: 3 * length - index decreases in every iteration, so
+   the fuel 3 * length + 3 used by the extracted model is never exhausted *)
+Theorem C02_peep_optimize_terminates : forall l, snd (optimize_st (opt_fuel l) l) <> OFuel.
+Proof. exact optimize_terminates. Qed.
+Print Assumptions C02_peep_optimize_terminates.
+
 (* labels and debug markers survive, in order *)
 Theorem C02_peep_keeps_marks : forall fuel l, marks (optimize fuel l) = marks l.
 Proof. exact optimize_keeps_marks. Qed.
